@@ -722,7 +722,15 @@ file_info_decoder_memconfig(void *coder_ptr, uint64_t *memusage,
 	// acceptable as lzma_memusage() has to return non-zero on success
 	// and even with an empty .xz file we will end up with a lzma_index
 	// that takes some memory.
-	*memusage = combined_index_memusage + this_index_memusage;
+	//
+	// The Index decoder reports UINT64_MAX if the Index being decoded
+	// claims to have so many Records that the memory usage cannot be
+	// represented. Don't let the sum wrap around in that case.
+	if (this_index_memusage > UINT64_MAX - combined_index_memusage)
+		*memusage = UINT64_MAX;
+	else
+		*memusage = combined_index_memusage + this_index_memusage;
+
 	if (*memusage == 0)
 		*memusage = lzma_index_memusage(1, 0);
 
@@ -746,12 +754,15 @@ file_info_decoder_memconfig(void *coder_ptr, uint64_t *memusage,
 			uint64_t dummy1;
 			uint64_t dummy2;
 
-			if (coder->index_decoder.memconfig(
+			// This can fail with LZMA_MEMLIMIT_ERROR if the
+			// Index decoder needs more than idec_new_memlimit,
+			// for example, when *memusage was saturated above.
+			const lzma_ret ret = coder->index_decoder.memconfig(
 					coder->index_decoder.coder,
-					&dummy1, &dummy2, idec_new_memlimit)
-					!= LZMA_OK) {
-				assert(0);
-				return LZMA_PROG_ERROR;
+					&dummy1, &dummy2, idec_new_memlimit);
+			if (ret != LZMA_OK) {
+				assert(ret == LZMA_MEMLIMIT_ERROR);
+				return ret;
 			}
 		}
 
